@@ -558,4 +558,35 @@ _upd('C19', text=('The extractor is a rule table interpreted by the generic walk
 
 _upd('C07', text_add='Scoping programs added: hoisting seen from an inner scope that closes before the nearer declaration appears.')
 
+# ---- round 7 -------------------------------------------------------------------------------------------------------------------
+_LISTS = ('List rules under contract (contracts/ruletypes.py, E1, z3): JoinAttr.__call__ and ElisionJoinAttr.__call__ for child lists of ANY length '
+          '(loop contracts over an uninterpreted item sort: result = item0 (separator item_k)*, the Elision rule of 11.1.4), Attr / Text / Optional / '
+          'ElisionToken / Operator / CommentsAttr for every kind of value (None, [], 0, the empty string, nodes, lists), Declare.__call__ for attribute '
+          'lists of any length (the handler is called once per item, in order); constants they rest on are obligations (the Elision separator is one '
+          'comma, every ElisionJoinAttr of the stock definitions carries a tuple, Token.__init__ keeps its arguments). This is what carries the '
+          'per-production runs (child lists of length 0..3) to lists of every length.')
+for _cid in ('C01', 'C02', 'C07', 'C08', 'C13', 'C14', 'C20'):
+    _upd(_cid, text_add=_LISTS)
+_upd('C08', text_add='Imported: the shared printer contracts (BaseUnparser, Dispatcher, walk / _walk, list rules).')
+_upd('C13', text_add=('Imported: the shared printer contracts (comments are printed by the Attr rules through the shared walk). The tagged comments of '
+                      'O-comments carry leading / trailing blanks (space, tab, NBSP), a doubled blank and mixed case, so "verbatim" is sensitive to any tidying.'))
+_upd('C02', text_add=('class.required_space_covers_identifier_end / _start (E3, exhaustive over all code points, from the two real compiled patterns): every '
+                      'character an identifier of the real lexer can end in / start with is a boundary character of required_space -- what makes the '
+                      'representative spellings of O-sep sufficient. A genuine defect found by it was repaired in the repository (c62c868: U+1885 / U+1886).'),
+     note_add='Repo fix c62c868 (identifier characters outside \\w of the running interpreter).')
+_upd('C01', text_add=('class.required_space_covers_identifier_start (E3, all code points): the one place the pretty printer decides a space by character '
+                      'class (operand of typeof / void / delete); repaired in the repository together with the C02 case (c62c868).'))
+_upd('C12', text_add=('lex.string_pattern_unambiguous (E3, exhaustive): every string body of length <= 4 over a representative of every class the '
+                      'alternatives of the real string pattern distinguish splits into those alternatives in at most one way -- an ambiguous piece makes an '
+                      'unterminated string backtrack exponentially. Found on the unchanged tree (octal escapes: 3^n) and repaired in the repository '
+                      '(ad0f07d); inputs added: unterminated strings / regular expressions / comments / numbers repeating such a piece 30 and 60 times; '
+                      'errors next to an inserted semicolon (a neighbour quoted as ";" at N:0 carries the library\'s "no column").'),
+     note_add='Repo fix ad0f07d (exponential backtracking of the string pattern).')
+_upd('C18', text_add=('A write to a module- or class-level container reached from the function under contract is a frame violation of the VC generator '
+                      '(the closer list of io.write must be per call); bounded: the streams of the previous call are not touched by the next one.'))
+_upd('C05', text_add=('Imported: Lexer.get_lexer_token hands out exactly the token ply returned, asking ply once, whatever the two comment switches say '
+                      '(the token _token decides about is ply\'s next token); the matrix reads every text containing a comment with comment capture on '
+                      'as well and the two readings must agree.'))
+_upd('C03', text_add='Imported with the lexer-state contracts: Lexer.get_lexer_token (ply\'s next token, asked once, independent of the comment switches).')
+
 NOT_APPLICABLE = {}
